@@ -286,7 +286,7 @@ def p_PTRSIZE(t):
 
 def p_opt_seg_colon_1(t):
     '''opt_seg_colon : SEGMENT COLON '''
-    t[0] = {x86_afs.segm:x86_afs.reg_sg.index(t[1])}
+    t[0] = {x86_afs.segm:x86_afs.reg_sg.index(t[1].lower())}
 
 def p_expression_1(t):
     '''expression : MINUS expression %prec UMINUS'''
@@ -341,7 +341,7 @@ def p_register_1(t):
 
 def p_register_2st(t):
     '''register : REGISTER LPAREN NUMBER RPAREN'''
-    t[0] = t[1] + "%d"%t[3]
+    t[0] = t[1].lower() + "%d"%t[3]
     t[0] ={x86_afs.reg_dict[t[0]]:1, x86_afs.size : x86_afs.f32}
 
 def p_register_3st(t):
